@@ -314,22 +314,45 @@ def check_programs(progs):
         V = val_arr(p["val"])
         Vinv = val_arr(p["inverse"]) if p["inverse"] else None
         rp = {"engine": "matrices", "leaf": p["leaf"], "ops": p["ops"]}
-        try:
-            obj = apply_ops(build_leaf(p["leaf"]), p["ops"])
-        except Exception as e:  # noqa: BLE001
-            last = p["ops"][-1][0] if p["ops"] else "construct"
-            sig = f"C10:{BY_NAME[p['leaf']]['cls']}:{last}:exception:{type(e).__name__}"
-            if sig not in seen:
-                seen.add(sig)
-                viol.append(("C10", sig, f"{prog_str(p)} raised {type(e).__name__}: {e}", rp))
-            continue
-        for kind, detail in observe(obj, V, p["facts"], Vinv):
-            opsig = ">".join(op for op, _ in p["ops"][-2:]) or "leaf"
-            sig = f"C10:{BY_NAME[p['leaf']]['cls']}{'(sign=-1)' if BY_NAME[p['leaf']].get('sign') == -1 else ''}:{opsig}:{kind}"
-            if sig not in seen:
-                seen.add(sig)
-                viol.append(("C10", sig, f"{prog_str(p)} [{type(obj).__name__}]: {kind}: {detail}", rp))
+        # the program is executed from a fresh leaf object and (programs with operations only) from a leaf that
+        # was already USED: its lazily computed attributes filled, so that derived objects may reuse them
+        for used in ((False, True) if p["ops"] else (False,)):
+            try:
+                leaf = build_leaf(p["leaf"])
+                if used:
+                    touch(leaf)
+                obj = apply_ops(leaf, p["ops"])
+            except Exception as e:  # noqa: BLE001
+                last = p["ops"][-1][0] if p["ops"] else "construct"
+                sig = f"C10:{BY_NAME[p['leaf']]['cls']}:{last}:exception:{type(e).__name__}"
+                if sig not in seen:
+                    seen.add(sig)
+                    viol.append(("C10", sig, f"{prog_str(p)}{' (leaf used before)' if used else ''} raised {type(e).__name__}: {e}", dict(rp, used=used)))
+                continue
+            for kind, detail in observe(obj, V, p["facts"], Vinv):
+                opsig = ">".join(op for op, _ in p["ops"][-2:]) or "leaf"
+                sig = (f"C10:{BY_NAME[p['leaf']]['cls']}{'(sign=-1)' if BY_NAME[p['leaf']].get('sign') == -1 else ''}:{opsig}:{kind}"
+                       + (":leaf-used-before" if used else ""))
+                if sig not in seen and sig.replace(":leaf-used-before", "") not in seen:
+                    seen.add(sig)
+                    viol.append(("C10", sig, f"{prog_str(p)}{' (lazy attributes of the leaf read before)' if used else ''} "
+                                 f"[{type(obj).__name__}]: {kind}: {detail}", dict(rp, used=used)))
     return viol, n
+
+
+def touch(obj):
+    """Read every lazily computed attribute an object offers (fills its caches)."""
+    for a in ("array", "T", "inv", "sqrt", "eigval", "eigvec", "diagonal", "log_abs_det"):
+        try:
+            v = getattr(obj, a)
+            if a in ("inv", "sqrt", "T"):
+                _ = v.array
+        except Exception:  # noqa: BLE001
+            pass
+    try:
+        hash(obj)
+    except Exception:  # noqa: BLE001
+        pass
 
 
 # --------------------------------------------------------------------------------------
